@@ -212,6 +212,32 @@ def r6(ctx, prog):
     ctx.floor(R, 3)
 
 
+def r7(ctx, prog):
+    R = ctx.rule("C18.R7", "segment timer invariant (asserted by mi_segment_schedule_purge): purge_expire == 0 only with an empty purge_mask — the purge driver returns at once on "
+                           "expire == 0, so clearing the timer while ranges are still scheduled leaves them committed for good; every `purge_expire = 0` is paired with emptying the mask")
+    n = 0
+    for f in prog.fns.values():
+        for a, l, rhs, op in f.field_stores("purge_expire", "mi_segment_s"):
+            if op != "=" or rhs is None or f.cv(rhs) != 0:
+                continue
+            n += 1
+            empt = lambda e: rl.is_call(f, e, "mi_commit_mask_create_empty") and f.mentions_field(f.nodes[e]["args"][0], "purge_mask")
+            refill = lambda e: rl.is_call(f, e, ("mi_commit_mask_set", "mi_commit_mask_create_intersect", "mi_commit_mask_create_full", "mi_commit_mask_create")) and \
+                f.mentions_field(f.nodes[e]["args"][-1] if f.nodes[e]["callee"] != "mi_commit_mask_set" else f.nodes[e]["args"][0], "purge_mask")
+            after = f.cfg.must_pass([f.cfg.after(a)], f.cfg.exit_points(), empt) is None
+            before = rl.precedes(f, empt, a) is None and not any(refill(e) for e in [f.cfg.elem_at(p) for p in f.cfg.reach([f.cfg.entry])] if e is not None and f.cfg.reaches(f.cfg.after(e), f.cfg.pt(a)))
+            ctx.check(R, after or before, f.where(a), "segment->purge_expire = 0 together with mi_commit_mask_create_empty(&segment->purge_mask) on every path", key="C18.R7:%s" % f.name)
+    if n < 2:
+        ctx.broke("C18.R7: %d stores of 0 to segment->purge_expire (2 confirmed: try_purge, os_alloc)" % n)
+    # and the driver really does nothing while the timer is 0 (that is what makes the pairing necessary)
+    g = prog.fn("mi_segment_try_purge")
+    z = lambda e, pol: isinstance(e, int) and rl.establishes(g, e, pol, "==", rl.is_field(g, "purge_expire"), rl.is_const(g, lambda v: v == 0))
+    hit = [q for p, q, e, pol in rl.edges_with_fact(g, z)]
+    ok = bool(hit) and not any(rl.can_reach_call(g, q, lambda m: m.get("callee") == "mi_segment_purge") for q in hit)
+    ctx.note("C18.R7: mi_segment_try_purge %s on purge_expire == 0" % ("returns without purging" if ok else "does not return early (pairing is then not required for progress)"))
+    ctx.floor(R, 2)
+
+
 def run(ctx):
     ctx.explanation = ("Static decision of C18's code-shaped necessary conditions: orientation agreement of the expiry tests of the three purge "
                        "drivers (edge-fact analysis over their CFGs), reachability of force=false purge attempts from ordinary free/alloc/collect "
@@ -220,7 +246,7 @@ def run(ctx):
     for c in (["REL"] if ctx.tier == "quick" else ["REL", "SEC", "DBG"]):
         prog = ctx.prog(c)
         n0 = len(ctx.instances)
-        r1(ctx, prog); r2(ctx, prog); r3(ctx, prog); r4(ctx, prog); r5(ctx, prog); r6(ctx, prog)
+        r1(ctx, prog); r2(ctx, prog); r3(ctx, prog); r4(ctx, prog); r5(ctx, prog); r6(ctx, prog); r7(ctx, prog)
         if c != "REL":
             for i in ctx.instances[n0:]:
                 i["site"] += " [%s]" % c
